@@ -5,7 +5,8 @@ All theorems are about the Model functions the driver executes (OFV/Model/C16.le
 (OFV/Spec/Basic.lean) that give the reductions their meaning.
 
 Not proved here (see OPEN_STATEMENTS in harness/c16.py): the operator-level statements
-(spectrum of the tapered operator, SCBK sector): Spec oracle only.
+(spectrum of the tapered operator; that bravyi_kitaev_tree output meets the hypothesis of
+scbk_sector_sound): Spec oracle only.
 -/
 import OFV.Proofs.C16
 import OFV.Proofs.C16Pauli
@@ -14,6 +15,7 @@ import OFV.Proofs.C16Proj
 import OFV.Proofs.C16Embed
 import OFV.Proofs.C16Freeze
 import OFV.Proofs.C16Prune
+import OFV.Proofs.C16Scbk
 
 namespace OFV.C16
 open OFV OFV.Spec OFV.Model OFV.Model.C16 OFV.C16P OFV.Generated
@@ -420,6 +422,36 @@ example : (freezeOrbitalsX eqTolerance [([(2, 1), (1, 1), (0, 0), (1, 0)], 1), (
       [1] [3] true).2 = true ∧
     (freezeOrbitalsX eqTolerance [([(2, 1), (1, 1), (0, 0), (1, 0)], 1), ([(0, 1), (0, 0)], ⟨1/2, 0⟩)]
       [1] [3] true).1 = [([(1, 1), (0, 0)], 1), ([(0, 1), (0, 0)], ⟨1/2, 0⟩)] := by
+  decide +kernel
+
+/-- **`scbk_sector_sound`** (the reduction of `symmetry_conserving_bravyi_kitaev`, Model level, all four
+cases of `N mod 4`).  Let `Q` be a qubit operator on `n ≥ 2` qubits whose terms are Pauli strings on
+distinct qubits that carry only `I` or `Z` on the last qubit `n-1` and on the middle qubit `n/2-1`
+(what the Bravyi-Kitaev tree transform of a number- and spin-conserving Hamiltonian with up-then-down
+ordering looks like), and let the exactness flag of the run be `true` (neither `compress` call
+truncates a coefficient; reported by the driver).  Then the operator the code returns —
+`edit_hamiltonian_for_spin(·, n, p_final)`, `edit_hamiltonian_for_spin(·, n/2, p_middle)`,
+`remove_indices(·, (n/2, n))` with `(p_final, p_middle) = (+,+), (-,-), (+,-), (-,+)` for
+`N mod 4 = 0, 1, 2, 3` — has, between the basis states `s, t` of the `n-2` remaining qubits, the matrix
+elements of `Q` between the states with the last qubit in `|1⟩` iff `p_final = -1` and the middle qubit
+in `|1⟩` iff `p_middle = -1` (`Spec.C16.embed`, the statement the harness oracle evaluates). -/
+theorem scbk_sector_sound (tol : Rat) (n N : Nat) (Q : Model.Op) (hn : 2 ≤ n)
+    (hQ : ∀ e ∈ Q, Good n (n - 1) (n / 2 - 1) e.1) (hex : scbkExact tol Q n N = true) (s t : Nat)
+    (hs : s < 2 ^ (n - 2)) (ht : t < 2 ^ (n - 2)) :
+    GV.coeff (applyOp .qubit (scbkReduce tol Q n N) [s]) [t]
+      = GV.coeff (applyOp .qubit Q
+          [Spec.C16.embed (keptList n [n / 2 - 1, n - 1]) (onesList [n / 2 - 1, n - 1] [sigmaM N, sigmaF N]) s])
+          [Spec.C16.embed (keptList n [n / 2 - 1, n - 1]) (onesList [n / 2 - 1, n - 1] [sigmaM N, sigmaF N]) t] :=
+  scbk_den tol n N Q hn hQ hex s t hs ht
+
+/-- the sector bits: `N mod 4 = 0, 1, 2, 3` fixes (middle, last) to `(0,0), (1,1), (1,0), (0,1)` -/
+example : (List.range 4).map (fun N => (sigmaM N, sigmaF N)) = [(0, 0), (1, 1), (1, 0), (0, 1)] := by decide
+
+/-- non-vacuity: `Z_3 + 1/2 Z_1 Z_3 + X_0 X_2` on 4 qubits with `N = 1` (both parities `-1`), at the
+live tolerance: the flag is `true` and the result is `-1 + 1/2 + X_0 X_1` -/
+example : scbkExact eqTolerance [([(3, 3)], 1), ([(1, 3), (3, 3)], ⟨1/2, 0⟩), ([(0, 1), (2, 1)], 1)] 4 1 = true ∧
+    scbkReduce eqTolerance [([(3, 3)], 1), ([(1, 3), (3, 3)], ⟨1/2, 0⟩), ([(0, 1), (2, 1)], 1)] 4 1
+      = [([], ⟨-1/2, 0⟩), ([(0, 1), (1, 1)], 1)] := by
   decide +kernel
 
 end OFV.C16
